@@ -587,7 +587,11 @@ impl Sim {
     /// (profiles with big jumps run without visibility lists)
     fn can_hop(&self) -> bool {
         let nslots = self.slots.len();
-        self.cfg.vis == 0 && (0..nslots).any(|s| self.slots[s].is_some() && self.marked[s] && !(self.cfg.periodic && self.entity_has_p(s)))
+        // (a connected client that is not authorized receives nothing: its tick state would stay behind by the whole jump,
+        // which is the situation of finding F15 / the connect exclusion)
+        self.cfg.vis == 0
+            && (0..self.clients.len()).all(|i| !self.clients[i].connected || self.authorized(i))
+            && (0..nslots).any(|s| self.slots[s].is_some() && self.marked[s] && !(self.cfg.periodic && self.entity_has_p(s)))
     }
 
     /// Everybody in sync, advance the server tick by `by` (< 2^31) in one tick frame in which every replicated entity
@@ -1279,6 +1283,25 @@ impl Sim {
                 }
                 self.at_wrap = true;
                 self.flags.insert("moved_to_the_tick_wrap");
+                if self.cfg.events && self.clients[0].connected {
+                    // One legal schedule made frequent: a dependent event and a world change in every tick across the wrap,
+                    // client 0's update messages held back, then all events first and the updates afterwards.
+                    if let Some(slot) = (0..nslots).find(|&s| self.slots[s].is_some() && self.marked[s]) {
+                        for _ in 0..(before.clamp(3, 15) as usize + 2) {
+                            let has = self.slots[slot].is_some_and(|e| self.has_k(e, K::S));
+                            self.step(&if has { Step::Remove { slot, k: K::S } } else { Step::Insert { slot, k: K::S } });
+                            self.step(&Step::EmitS { kind: SK::Dep, mode: 0, target: 0, refslot: slot, refslot2: None });
+                            self.server_frame(true);
+                            if self.fail.is_some() {
+                                return;
+                            }
+                        }
+                        // the last emission leaves with the next frame
+                        self.server_frame(true);
+                        self.step(&Step::EventsFirst { client: 0 });
+                        self.flags.insert("events_queued_across_the_tick_wrap");
+                    }
+                }
             }
             Step::ClientFrame { client } => {
                 if client < nclients && self.clients[client].connected {
